@@ -329,7 +329,7 @@ Proof.
     ginv_same I. rewrite A. apply set_nth_id. eapply nth_target; exact Hv.
   - (* constant *)
     destruct (const_at names defs ns st0 st HX _ _ _ _ E) as [v [c [Hev Hv]]]. fold pos in Hev.
-    rewrite (eval_guess _ _ _ _ _ (gi_sym _ _ I) Hev). eexists _, _. split; [reflexivity|].
+    rewrite (eval_guess _ _ _ _ _ (gi_sym _ _ I) Hev). cbn [andb]. eexists _, _. split; [reflexivity|].
     ginv_same I. rewrite A. apply set_nth_id. eapply nth_target; exact Hv.
   - (* instruction *)
     destruct (instr_size names defs ns st0 st HX _ _ _ _ E) as [d0 [d [H0 [H1 [Hm [Hsz Hre]]]]]]. fold pos in Hre.
